@@ -246,26 +246,34 @@ func c09Fetch(c *mc.Ctx) {
 			fullBefore |= 1 << uint(i)
 		}
 	}
-	var visited uint64
-	var frontier []int
+	// breadth-first from the commits that are asked for; a shallow commit stops being exempt when this
+	// walk reaches it within the requested depth
+	var visited, within uint64
+	type qe struct{ node, d int }
+	var queue []qe
 	for _, t := range stips {
 		if C&(1<<uint(t)) == 0 { // only commits the client lacks are asked for
-			frontier = append(frontier, t)
+			queue = append(queue, qe{t, 0})
 		}
 	}
-	for len(frontier) > 0 {
-		x := frontier[0]
-		frontier = frontier[1:]
-		if visited&(1<<uint(x)) != 0 {
+	for len(queue) > 0 {
+		x := queue[0]
+		queue = queue[1:]
+		if visited&(1<<uint(x.node)) != 0 {
 			continue
 		}
-		visited |= 1 << uint(x)
-		if fullBefore&(1<<uint(x)) != 0 {
+		visited |= 1 << uint(x.node)
+		if depth == 0 || x.d < depth {
+			within |= 1 << uint(x.node)
+		}
+		if fullBefore&(1<<uint(x.node)) != 0 {
 			continue
 		}
-		frontier = append(frontier, g.Parents[x]...)
+		for _, p := range g.Parents[x.node] {
+			queue = append(queue, qe{p, x.d + 1})
+		}
 	}
-	exempt &^= visited
+	exempt &^= within
 	run := func() (transferred int, nothingWanted bool, err error) {
 		srv.ResetLog()
 		ses, err := apiclient.NewUploadPackSession(cdb, crs, client, advertised,
